@@ -7,7 +7,6 @@ import (
 	"os"
 	"strings"
 	"sync"
-	"testing"
 	"time"
 
 	"verif/harness/hx"
@@ -220,12 +219,6 @@ func spec(prop string) hx.Spec[Case] {
 	return hx.Spec[Case]{Prop: prop, Core: coreCases, Gen: genCase(prop), Check: checkCase(prop), Timeout: 60 * time.Second}
 }
 
-func TestC36(t *testing.T) { hx.Run(t, spec("C36")) }
-func TestC37(t *testing.T) { hx.Run(t, spec("C37")) }
-func TestC38(t *testing.T) { hx.Run(t, spec("C38")) }
-func TestC39(t *testing.T) { hx.Run(t, spec("C39")) }
-func TestC40(t *testing.T) { hx.Run(t, spec("C40")) }
-func TestC41(t *testing.T) { hx.Run(t, spec("C41")) }
 
 var minimiseBudget = func() time.Duration {
 	if os.Getenv("P_ORACLE_SURVEY") != "" {
